@@ -189,7 +189,12 @@ impl NodeState {
     }
 
     fn reset_node(&mut self, last_gc_version: Version) {
+        // Only the key-values are reset. The heartbeat is kept: forgetting it would make the
+        // next (possibly stale, relayed) heartbeat look like a first value, and the one after
+        // it like a fresh heartbeat.
+        let heartbeat = self.heartbeat;
         *self = NodeState::new(self.chitchat_id.clone(), self.listeners.clone());
+        self.heartbeat = heartbeat;
         self.max_version = 0;
         self.last_gc_version = last_gc_version;
     }
